@@ -89,4 +89,12 @@ CHECKS = {
         note=COMMON_NOTE,
         technique="TLA+ value semantics + spec-resident reference table, TLC BFS case enumeration replayed into operator API and Model.Run",
         design_ref="DESIGN.md section 6 (C10)"),
+    "C11": dict(
+        text="Bounded-exhaustive: TLC enumerates every attribute form of Constant (all 11 tensor element types in both encodings), every "
+             "(shape, value type, encoding) of ConstantOfShape and all 100 numeric Cast pairs over the in-range value catalogue, computing "
+             "the exact expected tensor (element type, shape, values; truncation toward zero) from spec/OpConst.tla; compared bit-exactly "
+             "through the operator API and single-node models; unsupported attributes/targets must give errors.",
+        note=COMMON_NOTE,
+        technique="TLA+ operator semantics + TLC BFS case enumeration, replayed into operator API and Model.Run",
+        design_ref="DESIGN.md section 6 (C11)"),
 }
